@@ -436,7 +436,28 @@ def flush_witness():
 
 
 def call_iso(cid, P, ism, symmetry, alias=False, ctx=''):
-    """find_isomorphisms / subgraph_isomorphisms_iter on the matcher `ism` of the pair `P`"""
+    """find_isomorphisms / subgraph_isomorphisms_iter (alias=True) / isomorphisms_iter (alias='isomorphisms_iter')
+    on the matcher `ism` of the pair `P`.  isomorphisms_iter yields nothing when graph and pattern differ in size and
+    is find_isomorphisms(symmetry) otherwise: unequal sizes are judged by the `isiso` reference query (any yield ==
+    same size and allIsos != []), equal sizes exactly as find_isomorphisms with that symmetry value."""
+    method = 'find_isomorphisms' if not alias else 'subgraph_isomorphisms_iter' if alias is True else alias
+    if method == 'isomorphisms_iter' and len(P.g) != len(P.sg):
+        chk.count('isomorphisms_iter_unequal_size')
+        errs = []
+        try:
+            raw = guarded(lambda: list(ism.isomorphisms_iter(symmetry=symmetry)))
+        except Exception as e:  # noqa
+            raw = None
+            errs.append('exception %s: %s' % (type(e).__name__, e))
+        if raw:
+            errs.append('isomorphisms_iter(symmetry=%s) yields %d mappings although |graph|=%d and |pattern|=%d differ'
+                        % (symmetry, len(raw), len(P.g), len(P.sg)))
+        add('%s-isiso' % cid, line('isiso', P.gn, P.ge, P.sn, P.se), enc(None if raw is None else bool(raw)),
+            [ctx + e for e in errs], len(P.sg) >= 3)
+        return
+    if method == 'isomorphisms_iter':
+        chk.count('isomorphisms_iter_equal_size')
+        ctx = ctx + 'through isomorphisms_iter: '
     g, sg, order, naut = P.g, P.sg, P.order, P.naut
     full = P.full()
     if full is None:
@@ -448,8 +469,7 @@ def call_iso(cid, P, ism, symmetry, alias=False, ctx=''):
     rec = ConstraintRecorder(ism)
     calls = CallRecorder(ism, False)
     try:
-        raw = guarded(lambda: list(ism.subgraph_isomorphisms_iter(symmetry=symmetry) if alias
-                                   else ism.find_isomorphisms(symmetry=symmetry)))
+        raw = guarded(lambda: list(getattr(ism, method)(symmetry=symmetry)))
     except Exception as e:  # noqa
         raw = []
         errs.append('exception %s: %s' % (type(e).__name__, e))
@@ -722,6 +742,11 @@ def run_pair(cid, g, sg, do_iso=True, do_lcs=False, explicit=False, alias=False,
         chk.count('isos=%s' % (0 if not full else 1 if len(full) == 1 else '2-20' if len(full) <= 20 else '>20'))
         for symmetry in symmetries:
             call_iso(cid, P, P.matcher(), symmetry, alias)
+        if _N_PAIR[0] % 3 == 0 if len(g) == len(sg) else _N_PAIR[0] % 16 == 0:
+            # the networkx-style entry point for graphs of equal size, both symmetry values
+            for symmetry in (False, True):
+                call_iso(cid + '-ii%d' % int(symmetry), P, P.matcher(), symmetry, 'isomorphisms_iter')
+        _N_PAIR[0] += 1
     if do_lcs:
         k = P.mcis()[0]
         chk.count('lcs_size_vs_pattern=%s' % ('equal' if k == len(sg) else 'minus1' if k == len(sg) - 1 else 'smaller'))
@@ -730,10 +755,11 @@ def run_pair(cid, g, sg, do_iso=True, do_lcs=False, explicit=False, alias=False,
     flush_witness()
 
 
+_N_PAIR = [0]
 CALLS = [('find_isomorphisms', False), ('find_isomorphisms', True), ('subgraph_isomorphisms_iter', False),
          ('subgraph_isomorphisms_iter', True), ('largest_common_subgraph', False), ('largest_common_subgraph', True),
          ('is_isomorphic', False), ('is_isomorphic', True), ('subgraph_is_isomorphic', False),
-         ('subgraph_is_isomorphic', True)]
+         ('subgraph_is_isomorphic', True), ('isomorphisms_iter', False), ('isomorphisms_iter', True)]
 
 
 def do_call(cid, P, ism, name, symmetry, ctx):
@@ -742,6 +768,8 @@ def do_call(cid, P, ism, name, symmetry, ctx):
         call_iso(cid, P, ism, symmetry, False, ctx)
     elif name == 'subgraph_isomorphisms_iter':
         call_iso(cid, P, ism, symmetry, True, ctx)
+    elif name == 'isomorphisms_iter':
+        call_iso(cid, P, ism, symmetry, 'isomorphisms_iter', ctx)
     elif name == 'largest_common_subgraph':
         call_lcs(cid, P, ism, symmetry, ctx)
     else:
@@ -1342,6 +1370,13 @@ run_object_history('corpus-object-iso-then-lcs', nx.path_graph(4), nx.star_graph
 run_object_history('corpus-object-lcs-then-iso', sp.copy(), sp.copy(),
                    [('largest_common_subgraph', True), ('find_isomorphisms', False), ('find_isomorphisms', True),
                     ('is_isomorphic', False)])
+# every public entry point with both symmetry values on one matcher: a six-ring onto a renumbered six-ring
+# (|Aut| = 12: equal size), and the same ring in a larger graph (isomorphisms_iter yields nothing)
+_ring = nx.relabel_nodes(nx.cycle_graph(6), {0: 7, 1: 3, 2: 11, 3: 5, 4: 2, 5: 9})
+_ring_plus = _ring.copy()
+_ring_plus.add_edge(7, 20)
+for _nm, _tg in (('corpus-object-entry-points-ring', _ring), ('corpus-object-entry-points-ring-plus', _ring_plus)):
+    run_object_history(_nm, _tg, nx.cycle_graph(6), [CALLS[k] for k in (11, 10, 3, 2, 1, 0, 7, 6, 9, 8, 5, 4)])
 
 rng = chk.rng('cache-history')
 N = 3000 if chk.thorough else 350
